@@ -481,10 +481,13 @@ Record obs := mkObs {
   o_bal : list Z;               (* balance(a), a = 0 .. na-1 *)
   o_alw : list (list Z);        (* allowance(o, sp) at the current ledger, row = owner *)
   o_paused : bool;              (* paused() *)
-  o_list : list bool;           (* allowed(a) resp. blocked(a) *)
+  o_list : list (option bool);  (* allowed(a) resp. blocked(a); None = deliberately NOT read after this call
+                                   (reading a list entry extends its lifetime, so histories in which an
+                                   account's status is left alone for many ledgers need unread entries) *)
   o_cap : option Z;             (* query_cap(), None = CapNotSet *)
   o_mig : bool;                 (* can_complete_migration() *)
-  o_data : option Z             (* value stored by _migrate *)
+  o_data : option Z;            (* value stored by _migrate *)
+  o_trap : bool                 (* some getter trapped while observing (never, in the model) *)
 }.
 
 Definition universe (c : cfg) : list addr := map N.of_nat (seq 0 (na c)).
@@ -496,4 +499,4 @@ Definition observe (c : cfg) (s : state) : obs :=
   let u := universe c in
   mkObs (supply s) (map (bal s) u)
         (map (fun o => map (fun sp => allowance s o sp) u) u)
-        (paused s) (map (listed c s) u) (cap s) (migrating s) (mdata s).
+        (paused s) (map (fun x => Some (listed c s x)) u) (cap s) (migrating s) (mdata s) false.
